@@ -30,7 +30,7 @@ pub fn main(args: &[String]) {
         if elig.is_empty() { continue; }
         for _ in 0..per {
             let t = rng.pick(&elig);
-            jobs.push((it.text.clone(), t.off, 0, [0u8, 0, 0, 1, 1, 2, 2, 3][rng.below(8)], String::new()));
+            jobs.push((it.text.clone(), t.off, 0, [0u8, 0, 0, 1, 1, 2, 2, 3, 4, 4][rng.below(10)], String::new()));
         }
         // deletions: one bracket or block-closing keyword
         let closers = ["(", ")", "[", "]", "{", "}", "end", "endmodule", "endcase", "endfunction", "endtask", "endgenerate", "endclass", "endinterface", "endpackage", "endprogram", "begin"];
@@ -51,6 +51,16 @@ pub fn main(args: &[String]) {
                     let f = format!("inc{}.sv", i); std::fs::write(&f, &t2).unwrap();
                     let top = format!("// top\n`include \"{}\"\n", f);
                     (parse_top(&top, "top.sv"), f, 0usize)
+                } else if *via == 4 && !text.contains('`') {
+                    // the fault stands in text that directly follows a macro usage expanding to NOTHING: the empty expansion must not disturb the
+                    // origin of what follows it (an empty segment recorded in the origin table would shadow the next one)
+                    let bytes = t2.as_bytes();
+                    let mut k = *pos; while k > 0 && (bytes[k - 1] as char).is_ascii_whitespace() { k -= 1; }
+                    while k > 0 && !(bytes[k - 1] as char).is_ascii_whitespace() { k -= 1; }
+                    if !t2.is_char_boundary(k) || k >= *pos { k = 0; }
+                    let head = "`define OPT(x) x\n";
+                    let top = format!("{}{}`OPT(){}", head, &t2[..k], &t2[k..]);
+                    (parse_top(&top, "t.sv"), "t.sv".to_string(), head.len() + 6)
                 } else if *via >= 2 {
                     // the fault is in the including file, after an `include of a harmless header; via == 2: the header is exactly as long as the
                     // offset at which the `include directive ends, so the source offsets of the header's text and of the text that follows the
@@ -84,7 +94,7 @@ pub fn main(args: &[String]) {
         }));
         match r { Ok(x) => x, Err(e) => Err(format!("panic: {}", util::panic_msg(e))) }
     });
-    let mut rep = Report::new("accepted directive-free corpus programs x (a) 0x01 / 0x7f / 0x0b (vertical tab) / U+00A0 / U+2028 inserted at the start of an eligible token (not inside a directive, not glued to an escaped identifier), directly, inside an included file, or in the including file after an `include of a header whose length equals the offset at which the directive ends (source offsets run on across the file boundary); (b) one bracket / begin / block-closing keyword deleted; non-trivial = every mutant; distinct by (text, position, kind)");
+    let mut rep = Report::new("accepted directive-free corpus programs x (a) 0x01 / 0x7f / 0x0b (vertical tab) / U+00A0 / U+2028 inserted at the start of an eligible token (not inside a directive, not glued to an escaped identifier), directly, inside an included file, or in the including file after an `include of a header whose length equals the offset at which the directive ends (source offsets run on across the file boundary), or in text that directly follows a macro usage expanding to nothing; (b) one bracket / begin / block-closing keyword deleted; non-trivial = every mutant; distinct by (text, position, kind)");
     // preprocessor-level faults
     for (t, fault) in [("module m;\n\"unterminated\n", 10usize), ("a /* open\n", 2), ("x \\\n", 2), ("ok\n`define\n", 3), ("`ifdef\n", 0)] {
         let d = no_defines(); let i = no_includes();
@@ -98,7 +108,7 @@ pub fn main(args: &[String]) {
     for ((text, pos, kind, via, del), r) in jobs.iter().zip(results.into_iter()) {
         let key = format!("{}{}{}{}", text, pos, kind, via);
         rep.case(key.as_bytes(), true);
-        rep.count(if *kind == 0 { ["insert", "insert-in-include", "insert-after-aligned-include", "insert-after-include"][*via as usize] } else { "delete" });
+        rep.count(if *kind == 0 { ["insert", "insert-in-include", "insert-after-aligned-include", "insert-after-include", "insert-after-empty-expansion"][*via as usize] } else { "delete" });
         if let Err(m) = r {
             // deletion mutants may stay valid programs (e.g. redundant parentheses): those are generator artefacts, not violations
             if *kind == 1 && m.contains("still accepted") { rep.count("delete-still-valid(skipped)"); continue; }
